@@ -151,7 +151,10 @@ def best_states_bruteforce(run, n, steps, reps, procs, structured=False):
                                seed=run.rng.randrange(1 << 30))
     env = inst.get_env()
     if structured:
-        one = block_game(run.rng, n)
+        # "fixed": the instance an adversary found (seeded/C11-b) - players 0 and 1 already produce everything; proper
+        # reveal sets pin it down completely (mean gap exactly 0.0), followed in enumeration order by sets with a positive gap
+        fixed = [0.0, 0.0, 0.0, 1.0, 0.0, 0.5, 0.5, 1.0, 0.0, 0.25, 0.25, 1.0, 0.0, 0.75, 0.75, 1.0]
+        one = fixed if structured == "fixed" else block_game(run.rng, n)
         env.generator = _Fixed([one for _ in range(reps)], n)
     games = []
     orig = env.generator
@@ -240,11 +243,13 @@ def main(run):
         if w:
             run._report_violation(f"pool[n={n}]/independent_of_workers", E.sc_search, {"n": n, "max_size": 1}, w, True, detail={"layer": "bounded"})
     bf = []
-    for n, steps, reps, procs, structured in (((3, 3, 3, 1, False), (4, 2, 3, 2, False), (4, 10, 2, 1, True)) if quick else
-                                              ((3, 3, 4, 1, False), (4, 2, 3, 2, False), (4, 3, 2, 3, False), (4, 10, 2, 1, True), (4, 10, 1, 3, True))):
+    for n, steps, reps, procs, structured in (((3, 3, 3, 1, False), (4, 2, 3, 2, False), (4, 10, 2, 1, "fixed"), (4, 10, 2, 1, True), (4, 10, 1, 1, True))
+                                              if quick else
+                                              ((3, 3, 4, 1, False), (4, 2, 3, 2, False), (4, 3, 2, 3, False), (4, 10, 2, 1, "fixed"), (4, 10, 2, 1, True),
+                                               (4, 10, 1, 3, True), (4, 10, 2, 2, True), (4, 10, 1, 1, True))):
         w = best_states_bruteforce(run, n, steps, reps, procs, structured)
         run.native_evals += 1
-        run.native_distinct.add(("bf", n, steps, reps))
+        run.native_distinct.add(("bf", n, steps, reps, str(structured), len(bf)))
         bf.append({"n": n, "steps": steps, "repetitions": reps, "processes": procs, "block_additive_games": structured, "failure": w})
         if w:
             run._report_violation(f"best_states.native[n={n},reps={reps}]/optimal", E.sc_best_states, {"n": n, "max_steps": steps, "repetitions": reps},
